@@ -152,6 +152,20 @@ def pregen_al(work):
     return None
 
 
+def pregen_sk(work):
+    """Ekit/Generated/SkipListGo.lean: internal/list/skip_list.go as terms of the fifth MiniGo instance (harness/minigosk)."""
+    binp, blog = work.build("minigosk")
+    if binp is None:
+        return "Go->MiniGo(SK) translator does not build: " + blog
+    out = os.path.join(core.LEAN, "Ekit", "Generated", "SkipListGo.lean")
+    tmp = os.path.join(work.dir, "SkipListGo.lean")
+    rc, log = core.sh([binp, "-root", work.repo, "-out", tmp], env=core.GOENV, timeout=120)
+    if rc != 0:
+        return "Go->MiniGo(SK) translator failed (internal/list/skip_list.go left the translated subset): " + log
+    core.write_if_changed(out, open(tmp).read())
+    return None
+
+
 def lean_obligations(res, pid, extra_targets=()):
     """lake build of the property module + axiom audit + forbidden-token grep.
     Returns True iff every proof obligation of `pid` is discharged."""
